@@ -113,6 +113,7 @@ def make_function(f, funcs):
             env[nm] = np.zeros(dims) if dims else 0.0
         sub = mexpr.Evaluator(env, ev.logic, funcs)
         run_stmts(sub, f["stmts"])
+        ev.maxabs = max(ev.maxabs, sub.maxabs)
         outs = [env[nm] for nm, _ in f["outputs"]]
         return outs[0] if len(outs) == 1 else outs
     return call
@@ -196,13 +197,16 @@ def eq_residual(ev, e):
     raise ValueError(k)
 
 
-def residual_blocks(m, env, initial=False, logic="casadi"):
-    """-> list of blocks (one per top-level equation, declaration order); may raise mexpr.Undefined."""
+def residual_blocks(m, env, initial=False, logic="casadi", with_scale=False):
+    """-> list of blocks (one per top-level equation, declaration order); may raise mexpr.Undefined.
+    with_scale: also return the largest intermediate magnitude met (for the comparison tolerance)."""
     ev = mexpr.Evaluator(dict(env), logic, functions_of(m))
-    return [eq_residual(ev, e) for e in (m.get("ieqs", []) if initial else m.get("eqs", []))]
+    blocks = [eq_residual(ev, e) for e in (m.get("ieqs", []) if initial else m.get("eqs", []))]
+    return (blocks, ev.maxabs) if with_scale else blocks
 
 
-def compare_blocks(blocks, got, rtol=1e-8, atol=1e-9):
+def compare_blocks(blocks, got, rtol=1e-8, atol=1e-9, scale=1.0):
+    atol = atol * max(1.0, scale)
     """reference blocks vs pymoca's flat residual vector: block sizes must add up and every block
     must match as a multiset (order inside an equation's block is a representation detail).
     -> None or a description."""
